@@ -849,3 +849,23 @@ Proof.
   induction rqs as [|rq t IH]; intro ost; [reflexivity|].
   rewrite !run_cons, RR. destruct (run_request cfg ost rq) as [[o1 r] e]. rewrite IH. reflexivity.
 Qed.
+
+(** whether anybody is subscribed to the account stream changes nothing but who hears the
+    notifications: state (balances, ids, stored trades) and responses are those of [run] *)
+Lemma run_s_independent : forall cfg srqs ost,
+  fst (run_s cfg ost srqs) = fst (run cfg ost (map fst srqs)) /\
+  map fst (snd (run_s cfg ost srqs)) = map fst (snd (run cfg ost (map fst srqs))) /\
+  map snd (snd (run_s cfg ost srqs)) =
+    map (fun x : (rrequest * bool) * (rresp * list event) =>
+           if snd (fst x) then snd (snd x) else [])
+        (combine srqs (snd (run cfg ost (map fst srqs)))).
+Proof.
+  intros cfg srqs. induction srqs as [|[rq sub] t IH]; intro ost.
+  - cbn. repeat split.
+  - cbn [map fst run_s]. rewrite run_cons.
+    destruct (run_request cfg ost rq) as [[ost1 resp] evs].
+    specialize (IH ost1).
+    destruct (run_s cfg ost1 t) as [ob outb]. destruct (run cfg ost1 (map fst t)) as [o2 out].
+    cbn [fst snd map combine] in *. destruct IH as [I1 [I2 I3]].
+    split; [exact I1|]. split; [f_equal; exact I2|f_equal; exact I3].
+Qed.
